@@ -60,7 +60,7 @@ def main():
     for p in props:
         pid = p["id"]
         kh = [h for h in hs if h.prop == pid]
-        mo = [o for o in mobs if o.prop == pid]
+        mo = [o for o in mobs if o.prop == pid or pid in getattr(o, "also", [])]
         if pid in NA_REASON and not kh and not mo:
             na.append({"property_id": pid, "reason": NA_REASON[pid]})
             continue
